@@ -586,6 +586,25 @@ def hash_arm_items(ctx, arm, binds, st_v, state_name):
                 items.append(("each", pos, st_v[pos]))
                 continue
             raise Unrecognised("loop shape in hash arm", x)
+        if x["k"] == "MethodCall" and x["method"] == "for_each" and len(x["args"]) == 1 and strip(x["args"][0])["k"] == "Closure":
+            # <binding>.iter().for_each(|t| t.hash(state)) is the loop above
+            r_ = strip(x["recv"])
+            while r_["k"] == "MethodCall" and r_["method"] in ("iter", "into_iter") and not r_["args"]:
+                r_ = strip(r_["recv"])
+            src = field_path(r_)
+            cl_ = strip(x["args"][0])
+            cb_ = strip(cl_["body"])
+            while cb_["k"] == "Block" and not [s_ for s_ in cb_["stmts"] if s_["k"] != "Item"] and cb_.get("expr") is not None:
+                cb_ = strip(cb_["expr"])
+            if cb_["k"] == "Block" and len(cb_["stmts"]) == 1 and cb_["stmts"][0]["k"] in ("Semi", "Expr") and not cb_.get("expr"):
+                cb_ = strip(cb_["stmts"][0]["expr"])
+            cp_ = [q_.get("name") for q_ in cl_.get("params", []) if q_.get("k") == "Binding"]
+            if src and len(src) == 1 and src[0] in binds and len(cp_) == 1 and cb_["k"] == "MethodCall" and cb_["method"] == "hash" \
+                    and field_path(cb_["recv"]) == (cp_[0],) and len(cb_["args"]) == 1 and field_path(cb_["args"][0]) == (state_name,):
+                pos = binds.index(src[0])
+                items.append(("each", pos, st_v[pos]))
+                continue
+            raise Unrecognised("for_each shape in hash arm", x)
         if x["k"] in ("Call", "MethodCall"):
             args = hir.call_args(x)
             if any(field_path(a) == (state_name,) for a in args):
